@@ -111,31 +111,40 @@ type Agg struct {
 type Model map[SeriesKey]*Agg
 
 func (m Model) Add(key SeriesKey, d DP) {
+	v := 0.0
+	if d.Kind() != "set" {
+		v = d.Value()
+	}
+	m.AddRaw(key, d.Kind(), v, d.RateF(), d.ValStr, d.TS)
+}
+
+// AddRaw accumulates one datapoint given as plain values.
+func (m Model) AddRaw(key SeriesKey, kind string, value, rate float64, member string, ts int64) {
 	a := m[key]
 	if a == nil {
-		a = &Agg{Kind: d.Kind(), Members: map[string]struct{}{}, GaugeTS: math.MinInt64}
+		a = &Agg{Kind: kind, Members: map[string]struct{}{}, GaugeTS: math.MinInt64}
 		m[key] = a
 	}
 	a.N++
-	if d.TS > a.LastTS {
-		a.LastTS = d.TS
+	if ts > a.LastTS {
+		a.LastTS = ts
 	}
 	switch a.Kind {
 	case "counter":
-		a.Counter += int64(d.Value() / d.RateF()) // trunc(value / rate)
+		a.Counter += int64(value / rate) // trunc(value / rate)
 	case "timer":
-		a.Values = append(a.Values, d.Value())
-		a.Sampled += 1 / d.RateF()
+		a.Values = append(a.Values, value)
+		a.Sampled += 1 / rate
 	case "set":
-		a.Members[d.ValStr] = struct{}{}
+		a.Members[member] = struct{}{}
 	case "gauge":
-		if d.TS > a.GaugeTS {
-			a.GaugeTS = d.TS
-			a.Gauge = d.Value()
-			a.GaugeAlt = []float64{d.Value()}
-		} else if d.TS == a.GaugeTS {
-			a.Gauge = d.Value() // later line of the same instant wins (README)
-			a.GaugeAlt = append(a.GaugeAlt, d.Value())
+		if ts > a.GaugeTS {
+			a.GaugeTS = ts
+			a.Gauge = value
+			a.GaugeAlt = []float64{value}
+		} else if ts == a.GaugeTS {
+			a.Gauge = value // later line of the same instant wins (README)
+			a.GaugeAlt = append(a.GaugeAlt, value)
 		}
 	}
 }
